@@ -1117,6 +1117,14 @@ pub fn analyse(case: &IterCase, res: &RunResult) -> CaseReport {
             }
         }
     }
+    // a close() by the application has returned, every thread has come to rest - and the consumer
+    // is still blocked on the self-pipe (the observer's own close, which comes next, would paper
+    // over it)
+    if let (Some(q), true) = (quiescent, quiescent_blocked_fd) {
+        if closes.iter().any(|c| !c.2 && c.1.map_or(false, |r| r < q)) {
+            rep.viol("C11/blocked-after-close", "close() had returned, no thread could run any more, and the consumer was still blocked on the self-pipe (the wake-up of that close was lost or skipped)".into());
+        }
+    }
     // C18: mutators (add_signal, drop) and deliveries must not wedge each other
     match &res.outcome {
         Outcome::Deadlock(b) if b.iter().any(|(_, s)| s.contains("BlockedMutex")) => {
